@@ -95,7 +95,8 @@ EXPECT_PROBES = ["op_y0", "op_fsleep", "op_sleep", "op_sleepabs", "op_block",
                  "again_exc", "again_none", "again_depth3", "timer_fire",
                  "timer_cancelled_before_fire", "timer_selfstop",
                  "timer_recurring_fire", "prio_draw", "task_death_expected",
-                 "sleep_immediate", "sleep_via_hub", "hub_epoll"]
+                 "sleep_immediate", "sleep_via_hub", "hub_epoll",
+                 "timer_callback_returns_falsy"]
 
 T0 = S.T0
 TICK = S.TICK
@@ -363,6 +364,10 @@ def gen_plan(seed, tier):
             "k": r.randint(1, 3)}
     if spec["abs"]:
       spec["at"] = (_tick(r) // 2 - r.pick([0, 0, 1024])) * TICK
+    # what an ordinary firing returns (only the object False stops a timer;
+    # a count that happens to be 0 does not)
+    spec["ret"] = Rng(mix(seed, "tmret", no)).pick(["k", "k", 0, 0.0, "",
+                                                   None])
     steps.append(["tm", no, spec])
     if not spec["started"] and r.chance(0.9):
       g.events.append(["h", _tick(r) // 2, "tstart", {"tm": no}])
@@ -1461,6 +1466,10 @@ class Oracle(object):
           tm.stopped = True
           self.P["timer_selfstop"] += 1
         return False
+      rv = spec.get("ret", "k")
+      if rv != "k":
+        self.P["timer_callback_returns_falsy"] += 1
+        return rv
       return k
 
     d = spec["d"]
